@@ -99,6 +99,12 @@ def order_predicates(rep_wire, plain=None):
     return v
 
 
+def order_kind(msg):
+    """'2003/04: disposals not by (date, ticker): ...' -> 'disposals' (one signature per kind of ordering, not per year)."""
+    head = msg.split(" not")[0]
+    return re.sub(r"^\d{4}/\d{2}: ", "", head)[:40]
+
+
 def run_hooked(desc):
     """Library boundary with H3: record the pre-sort order of every HashMap drain; re-run with the failpoint
     permuting each drain under 8 seeds: reports must be identical and canonically ordered."""
@@ -130,7 +136,7 @@ def run_hooked(desc):
                 if len(rec["natural"]) >= 2:
                     cnt[f"drains_{rec['site']}_with_2plus_items"] += 1
         for msg in order_predicates(base["ok"]["report"], base["ok"].get("plain")):
-            viols.append({"clause": "not-canonically-ordered", "signature": "not-canonically-ordered:" + msg.split(":")[0].split(" not")[0][:30],
+            viols.append({"clause": "not-canonically-ordered", "signature": "not-canonically-ordered:" + order_kind(msg),
                           "detail": msg, "case": case})
         for s, o in enumerate(obs[1:9], start=1):
             cnt["failpoint_permutations"] += 1
@@ -258,7 +264,7 @@ def exec_procs(kind, files, args, requests, nproc, cnt):
                 viols.append({"clause": "not-canonically-ordered", "signature": "not-canonically-ordered:holdings", "detail": str(hs[:8])})
         if kind == "plain":
             for msg in order_predicates({"tax_years": [], "holdings": []}, outs[0][1].decode("utf-8", "replace")):
-                viols.append({"clause": "not-canonically-ordered", "signature": "not-canonically-ordered:" + msg.split(" not")[0][:30], "detail": msg})
+                viols.append({"clause": "not-canonically-ordered", "signature": "not-canonically-ordered:" + order_kind(msg), "detail": msg})
         if kind == "convert":
             ds = re.findall(rb"^(\d{4}-\d\d-\d\d) ", outs[0][1], flags=re.M)
             if ds != sorted(ds):
@@ -292,12 +298,20 @@ def run_procs(desc):
                           years=rng.randint(5, 15) if kind not in ("pdf", "mcp") else 4)
         files["in.cgt"] = render_dsl(txs)
         inp = txs
+        names = ["in.cgt"]
+        if kind in ("parse", "plain", "json") and rng.random() < 0.5:
+            # the same ledger as three input files (the order of the files on the command line is part of the input)
+            lines = files.pop("in.cgt").splitlines()
+            c1, c2 = sorted(rng.sample(range(1, len(lines)), 2)) if len(lines) > 3 else (1, 2)
+            files = {"a.cgt": "\n".join(lines[:c1]) + "\n", "b.cgt": "\n".join(lines[c1:c2]) + "\n", "c.cgt": "\n".join(lines[c2:]) + "\n"}
+            names = ["a.cgt", "b.cgt", "c.cgt"]
+            cnt["inputs_given_as_three_files"] += 1
         if kind == "parse":
-            args = ["parse", "in.cgt"]
+            args = ["parse"] + names
         elif kind == "mcp":
             requests = mcp_requests(rng, txs)
         elif kind != "pdf":
-            args = ["report", "in.cgt", "--format", kind]
+            args = ["report"] + names + ["--format", kind]
     vs, outs = exec_procs(kind, files, args, requests, nproc, cnt)
     if outs is None:
         return {"evaluations": nproc, "nontrivial_hashes": hashes, "counters": cnt, "violations": [], "samples": []}
@@ -346,7 +360,7 @@ def finalize(total, tier, seed):
 THRESHOLDS = {"inputs": 100, "failpoint_permutations": 800, "drains_holdings_with_2plus_items": 100,
               "drains_tax_years_with_2plus_items": 100, "drains_disposals_with_2plus_items": 500,
               "process_runs_plain": 90, "process_runs_json": 90, "process_runs_parse": 40, "process_runs_convert": 40,
-              "process_runs_pdf": 40, "process_runs_mcp": 12}
+              "process_runs_pdf": 40, "process_runs_mcp": 12, "inputs_given_as_three_files": 3}
 RULE = ("ledgers with 4-50 securities, many disposals on one date and 3-15 tax years: (a) hooked library runs "
         "recording the pre-sort order of each HashMap drain and re-run under 8 seeded permutations of every drain (H3 "
         "failpoint) - reports, text and JSON must be identical and canonically ordered; (b) 16 fresh processes per "
